@@ -108,7 +108,9 @@ struct Session {
     FieldOperatorContainer* Ops;
     GFContainer* GFC;
     TwoParticleGFContainer* TPC;
-    Session() : L(new Lattice), Idx(0), Ham(0), Symm(0), S(0), H(0), DM(0), Ops(0), GFC(0), TPC(0) {}
+    bool early;     // construct IndexClassification, IndexHamiltonian and Symmetrizer before any prepare() call
+    bool earlyHam, earlySymm;
+    Session() : L(new Lattice), Idx(0), Ham(0), Symm(0), S(0), H(0), DM(0), Ops(0), GFC(0), TPC(0), early(false), earlyHam(false), earlySymm(false) {}
 };
 
 static void dumpParts(const char* kind, unsigned i, unsigned j, FieldOperator& op) {
@@ -214,6 +216,9 @@ int main(int argc, char** argv) {
                 std::string lab; is >> lab;
                 const Lattice::Site& st = s.L->getSite(unhexLabel(lab));
                 out << "o ok " << hexLabel(st.Label) << " " << st.OrbitalSize << " " << st.SpinSize << "\n";
+            } else if (cmd == "earlyctor") {
+                s.early = true;
+                out << "o ok\n";
             } else if (cmd == "copy") {
                 Lattice* L2 = new Lattice(*s.L);
                 s.L = L2;
@@ -223,6 +228,11 @@ int main(int argc, char** argv) {
             } else if (cmd == "index") {
                 int mode; is >> mode;
                 s.Idx = new IndexClassification(s.L->getSiteMap());
+                if (s.early) {
+                    // "declare everything first, prepare afterwards": the objects only keep references to each other
+                    s.Ham = new IndexHamiltonian(s.L, *s.Idx); s.earlyHam = true;
+                    s.Symm = new Symmetrizer(*s.Idx, *s.Ham); s.earlySymm = true;
+                }
                 s.Idx->prepare(mode != 0);
                 unsigned N = s.Idx->getIndexSize();
                 out << "o nidx " << N << "\n";
@@ -240,7 +250,8 @@ int main(int argc, char** argv) {
                 IndexClassification::IndexInfo info = s.Idx->getInfo(i);
                 out << "o ok " << hexLabel(info.SiteLabel) << " " << info.Orbital << " " << info.Spin << "\n";
             } else if (cmd == "ham") {
-                s.Ham = new IndexHamiltonian(s.L, *s.Idx);
+                if (!s.earlyHam) s.Ham = new IndexHamiltonian(s.L, *s.Idx);
+                s.earlyHam = false;
                 s.Ham->prepare();
                 out << "o poly " << polyStr(*s.Ham) << "\n";
             } else if (cmd == "hshift") {
@@ -250,7 +261,8 @@ int main(int argc, char** argv) {
                 out << "o poly " << polyStr(*s.Ham) << "\n";
             } else if (cmd == "symm") {
                 std::string mode; is >> mode;
-                s.Symm = new Symmetrizer(*s.Idx, *s.Ham);
+                if (!s.earlySymm) s.Symm = new Symmetrizer(*s.Idx, *s.Ham);
+                s.earlySymm = false;
                 if (mode == "default") s.Symm->compute(false);
                 else if (mode == "ignore") s.Symm->compute(true);
                 else {
@@ -390,6 +402,16 @@ int main(int argc, char** argv) {
                 out << "o chitab " << i << " " << j << " " << k << " " << l << " " << clear << " " << tab.size();
                 for (size_t q = 0; q < tab.size(); ++q) out << " " << cplxStr(tab[q]);
                 out << "\n";
+                if (clear) for (size_t q = 0; q < nt; ++q) {
+                    // on-demand evaluation after the terms were purged: refusing is fine, returning another value is not
+                    try {
+                        ComplexType v = Y(tr[3*q], tr[3*q+1], tr[3*q+2]);
+                        out << "o chipurged " << i << " " << j << " " << k << " " << l << " " << tr[3*q] << " " << tr[3*q+1] << " " << tr[3*q+2]
+                            << " " << cplxStr(v) << "\n";
+                    } catch (std::exception&) {
+                        out << "o chipurged " << i << " " << j << " " << k << " " << l << " " << tr[3*q] << " " << tr[3*q+1] << " " << tr[3*q+2] << " refused\n";
+                    }
+                }
                 if (!clear) for (size_t q = 0; q < nt; ++q)
                     out << "o chiafter " << i << " " << j << " " << k << " " << l << " " << tr[3*q] << " " << tr[3*q+1] << " " << tr[3*q+2]
                         << " " << cplxStr(Y(tr[3*q], tr[3*q+1], tr[3*q+2])) << "\n";
@@ -415,6 +437,17 @@ int main(int argc, char** argv) {
                 for (size_t k = 0; k < taus.size(); ++k)
                     out << "o susctau " << a << " " << b << " " << c << " " << d << " " << hx::d(taus[k]) << " " << cplxStr(X0.of_tau(taus[k]))
                         << " " << cplxStr(X1.of_tau(taus[k])) << "\n";
+                {   // the same object evaluated before and after the disconnected part is switched on
+                    Susceptibility X5(*s.S, *s.H, A, B, *s.DM); X5.prepare(); X5.compute();
+                    std::vector<ComplexType> before(ns.size());
+                    for (size_t k = 0; k < ns.size(); ++k) before[k] = X5(ns[k]);
+                    ComplexType tb = taus.empty() ? ComplexType(0) : X5.of_tau(taus[0]);
+                    X5.subtractDisconnected(EA.getResult(), EB.getResult());
+                    for (size_t k = 0; k < ns.size(); ++k)
+                        out << "o suscreeval " << a << " " << b << " " << c << " " << d << " " << ns[k] << " " << cplxStr(before[k]) << " "
+                            << cplxStr(X0(ns[k])) << " " << cplxStr(X5(ns[k])) << " " << cplxStr(X2(ns[k])) << "\n";
+                    (void)tb;
+                }
                 {   // a copy of a computed object (with the disconnected part subtracted) is the same function
                     std::vector<Susceptibility> copies;
                     copies.push_back(X2);
